@@ -203,7 +203,7 @@ CHECKS = {
     "C08": dict(
         test="TestC08",
         quick=dict(procs=8, checks=40, timeout=900, race=True),
-        thorough=dict(procs=64, checks=300, timeout=3000, race=True),
+        thorough=dict(procs=48, checks=120, timeout=3000, race=True),
         rule="one evaluation = one barrier round in a race-instrumented worker: 2-16 registrar goroutines are released together onto the same batch of never-used types (2-6 fresh anonymous types, 1-3 wrappers nesting them by pointer/list/by-value map, 0-5 not-yet-used named types of the generated universe incl. mutually recursive ones), "
              "0-16 steady goroutines meanwhile run size/encode/decode on types registered in earlier rounds; GOMAXPROCS 2/4/16 and harness-side Gosched patterns drawn per round; non-trivial = >=2 goroutines first-used the same fresh type with overlapping call intervals (logical clock) while a steady call was in flight; distinct by (seed, shard, round, registrars)",
         technique="property-based testing (rapid) over sampled schedules under the Go race detector: barrier-released first use of fresh and mutually nested types, per-call comparison with the sequential reference model, race/fatal-error/deadlock detection",
